@@ -1,7 +1,53 @@
 import CB.Driver.Util
 import CB.Model.AddSubForms
+import CB.Model.WrapForms
 namespace CB
 open CB.Cmp CB.AddSub
+
+namespace D04
+open CB.WrapForms CB.NumTests
+
+/-- a `CtOption` token: the value under a true mask, `none` under a false one -/
+def ctoptTok (o : List Nat × Nat) : String :=
+  if o.2 = 1 then limbsHex o.1 else if o.2 = 0 then "none" else s!"badchoice:{natToHex o.2}"
+def optNatTok (o : Option Nat) : String := match o with | some v => natToHex v | none => "none"
+def bit01 (p : Bool) : String := if p then "1" else "0"
+def bitOfTok? (s : String) : Option Nat := match s with | "0" => some 0 | "1" => some 1 | _ => none
+
+/-- `c04.{u,l}.checked_ct`: conditional_select  ct_eq  default  conversions(a) -/
+def checkedCt (n x sx y sy c : Nat) : String :=
+  let a : CtOpt := (toLimbs n x, sx)
+  let b : CtOpt := (toLimbs n y, sy)
+  let conv := if ctoptTok (checkedToCtOption a) = ctoptTok (checkedFromCtOption a) ∧
+      ctoptTok (checkedToCtOption a) = (match checkedToOption a with | some v => limbsHex v | none => "none")
+    then ctoptTok (checkedToCtOption a) else "routes-differ"
+  let l1 := s!"{ctoptTok (ctoptSelect a b c)} {ctoptEq a b} {ctoptTok (checkedDefault n)} {conv}"
+  let m := B ^ n
+  let va : Option Nat := if sx = 1 then some (x % m) else none
+  let vb : Option Nat := if sy = 1 then some (y % m) else none
+  let l0 := s!"{optNatTok (if c = 1 then vb else va)} {bit01 (va == vb)} 0 {optNatTok va}"
+  s!"{l1} ;; {l0}"
+
+/-- `c04.{u,l}.wrapping_ct`: conditional_select  ct_eq  zero  is_zero(x)  one  is_one(x) -/
+def wrappingCt (n x y c : Nat) : String :=
+  let a := toLimbs n x; let b := toLimbs n y
+  let l1 := s!"{limbsHex (wrappingSelect a b c)} {choiceTok (wrappingCtEq a b)} {limbsHex (wrappingZero n)} {choiceTok (wrappingIsZero a)} {limbsHex (wrappingOne n)} {choiceTok (wrappingIsOne a)}"
+  let l0 := s!"{natToHex (if c = 1 then y else x)} {bit01 (x == y)} 0 {bit01 (x == 0)} 1 {bit01 (x == 1)}"
+  s!"{l1} ;; {l0}"
+
+/-- `c04.{u,l,b}.wrapping_fmt`: Display  UpperHex  LowerHex  Binary  #X  #x  #b  (boxed: a zero-limb value cannot be built here) -/
+def wrappingFmt (boxed : Bool) (l : List Nat) : String :=
+  let k := 16 * l.length
+  let v := val l
+  let hx := fun (u a : Bool) => if boxed then wrappingBoxedFmtHex u a l else wrappingFmtHex u a l
+  let bn := fun (a : Bool) => if boxed then wrappingBoxedFmtBin a l else wrappingFmtBin a l
+  let l1 := " ".intercalate ([hx true false, hx true false, hx false false, bn false, hx true true, hx false true, bn true].map bytesToTok)
+  let sh := fun (u : Bool) => Encoding.specHexText u k v
+  let sb := Encoding.specBinText (64 * l.length) v
+  let l0 := " ".intercalate ([sh true, sh true, sh false, sb, [48, 120] ++ sh true, [48, 120] ++ sh false, [48, 98] ++ sb].map bytesToTok)
+  s!"{l1} ;; {l0}"
+
+end D04
 
 private def u2 (n a b : String) (f : List Nat → List Nat → String) : Option String :=
   match n.toNat?, hexToNat? a, hexToNat? b with
@@ -181,6 +227,66 @@ def dispatchC04 : Dispatch := fun op args =>
       let exact := s!"{na}:{natToHex ((a + b) % m)} {na}:{natToHex ((a + m - b % m) % m)}"
       some s!"{l1} ;; {if nb > na then exact ++ " || panic" else exact}"
     | _, _, _, _ => badArgs
+  -- ---- coverage round: Wrapping<Limb> / Checked<Limb> assigning forms, WrappingNeg trait form
+  | "c04.l.assign", [a, b] =>
+    match hexToNat? a, hexToNat? b with
+    | some a, some b =>
+      let ca := WrapForms.limbCheckedAddAssign (a, 1) (b, 1); let cs := WrapForms.limbCheckedSubAssign (a, 1) (b, 1)
+      let l1 := s!"{natToHex (WrapForms.limbWrappingAddAssign a b)} {natToHex (WrapForms.limbWrappingSubAssign a b)} {D04.ctoptTok ([ca.1], ca.2)} {D04.ctoptTok ([cs.1], cs.2)} {natToHex (WrapForms.limbWrappingNegTrait a)}"
+      let l0 := s!"{natToHex ((a + b) % B)} {natToHex ((a + B - b) % B)} {if a + b < B then natToHex (a + b) else "none"} {if b ≤ a then natToHex (a - b) else "none"} {natToHex ((B - a) % B)}"
+      some s!"{l1} ;; {l0}"
+    | _, _ => badArgs
+  | "c04.l.checked_assign", [a, sa, b, sb] =>
+    match hexToNat? a, D04.bitOfTok? sa, hexToNat? b, D04.bitOfTok? sb with
+    | some a, some sa, some b, some sb =>
+      let ca := WrapForms.limbCheckedAddAssign (a, sa) (b, sb); let cs := WrapForms.limbCheckedSubAssign (a, sa) (b, sb)
+      let l1 := s!"{D04.ctoptTok ([ca.1], ca.2)} {D04.ctoptTok ([cs.1], cs.2)}"
+      let both := sa = 1 ∧ sb = 1
+      let l0 := s!"{if both ∧ a + b < B then natToHex (a + b) else "none"} {if both ∧ b ≤ a then natToHex (a - b) else "none"}"
+      some s!"{l1} ;; {l0}"
+    | _, _, _, _ => badArgs
+  | "c04.l.checked_ct", [a, sa, b, sb, c] =>
+    match hexToNat? a, D04.bitOfTok? sa, hexToNat? b, D04.bitOfTok? sb, D04.bitOfTok? c with
+    | some a, some sa, some b, some sb, some c => some (D04.checkedCt 1 a sa b sb c)
+    | _, _, _, _, _ => badArgs
+  | "c04.u.checked_ct", [n, a, sa, b, sb, c] =>
+    match n.toNat?, hexToNat? a, D04.bitOfTok? sa, hexToNat? b, D04.bitOfTok? sb, D04.bitOfTok? c with
+    | some n, some a, some sa, some b, some sb, some c => some (D04.checkedCt n a sa b sb c)
+    | _, _, _, _, _, _ => badArgs
+  | "c04.l.wrapping_ct", [a, b, c] =>
+    match hexToNat? a, hexToNat? b, D04.bitOfTok? c with
+    | some a, some b, some c => some (D04.wrappingCt 1 a b c)
+    | _, _, _ => badArgs
+  | "c04.u.wrapping_ct", [n, a, b, c] =>
+    match n.toNat?, hexToNat? a, hexToNat? b, D04.bitOfTok? c with
+    | some n, some a, some b, some c => some (D04.wrappingCt n a b c)
+    | _, _, _, _ => badArgs
+  | "c04.l.wrapping_fmt", [a] =>
+    match hexToNat? a with
+    | some a => some (D04.wrappingFmt false [a % B])
+    | _ => badArgs
+  | "c04.u.wrapping_fmt", [n, a] =>
+    match n.toNat?, hexToNat? a with
+    | some n, some a => some (D04.wrappingFmt false (toLimbs n a))
+    | _, _ => badArgs
+  | "c04.b.wrapping_fmt", [n, a] =>
+    match n.toNat?, hexToNat? a with
+    | some n, some a => some (D04.wrappingFmt true (toLimbs n a))
+    | _, _ => badArgs
+  -- Wrapping<BoxedUint>: ct_eq (zero padded)  zero  is_zero  one  is_one
+  | "c04.b.wrapping_ct", [na, a, nb, b] =>
+    match na.toNat?, hexToNat? a, nb.toNat?, hexToNat? b with
+    | some na, some a, some nb, some b =>
+      let x := toLimbs na a; let y := toLimbs nb b
+      let l1 := s!"{bctEq x y} 1:0 {NumTests.bIsZero x} 1:1 {NumTests.bIsOne x}"
+      let l0 := s!"{D04.bit01 (a == b)} 1:0 {D04.bit01 (a == 0)} 1:1 {D04.bit01 (a == 1)}"
+      some s!"{l1} ;; {l0}"
+    | _, _, _, _ => badArgs
+  -- `{:o}` of a primitive word through `Wrapping`: minimal octal digits (Rust's formatting of u64; no L0 of its own)
+  | "c04.w.wrapping_octal", [a] =>
+    match hexToNat? a with
+    | some a => some (bytesToTok ((Nat.toDigits 8 (a % B)).map Char.toNat))
+    | _ => badArgs
   | _, _ => none
 
 end CB
